@@ -36,6 +36,9 @@ Cases14 == UNION {{[s |-> name, D |-> D, style |-> style, padAt |-> P, ps |-> ps
 \* the length plans: one run each; "total" plans need a single pad
 Lens == {0, 1, 200, 4000, 20480} \cup (IF Big THEN {102400, 300000} ELSE {})
 Totals == {4095, 4096, 4097, 4098, 8192}
+\* pad lengths that bring the end of a text run (letter, pad, letter, white space before a dashed tag) to every offset around
+\* 64 KiB (and, in the thorough tier, around 128 KiB): white space that a dash removes may lie anywhere in a text of any length
+EdgeLens == 65522..65537 \cup (IF Big THEN 131058..131073 ELSE {})
 PadTable(c, len, total) ==
     [k \in 1..MaxSym |-> IF k \in c.padAt THEN [len |-> len, style |-> c.ps, total |-> total]
                          ELSE [len |-> 0, style |-> "p", total |-> 0]]
@@ -46,6 +49,10 @@ Runs14(c) ==
     \* (the same templates handed over as compiled bytes: the size classes of that route)
     \cup {[label |-> "len" \o ToString(l) \o "/compiled", tp |-> SourcesOf(c, FALSE), xcalls |-> [id \in {} |-> 0],
            pads |-> PadTable(c, l, 0), writer |-> "", via |-> "compiled"] : l \in Lens \cup {70000}}
+    \cup (IF Cardinality(c.padAt) = 1 /\ c.ps = "p" /\ c.D # {}
+          THEN {[label |-> "edge" \o ToString(l) \o "/", tp |-> SourcesOf(c, FALSE), xcalls |-> [id \in {} |-> 0],
+                 pads |-> PadTable(c, l, 0), writer |-> ""] : l \in EdgeLens}
+          ELSE {})
     \cup (IF Cardinality(c.padAt) = 1 /\ c.ps \notin {"e", "q", "i"}
           THEN {[label |-> "total" \o ToString(t) \o "/", tp |-> SourcesOf(c, FALSE), xcalls |-> [id \in {} |-> 0],
                  pads |-> PadTable(c, 0, t), writer |-> ""] : t \in Totals}
@@ -95,7 +102,11 @@ CaseOf14(c) ==
      runs |-> IF c.ps = "sweep" THEN SweepRuns(c) ELSE IF c.ps = "sweepsmall" THEN SmallSweepRuns(c) ELSE IF c.ps = "hist" THEN HistRuns(c) ELSE Runs14(c),
      expect |-> [ok |-> TRUE, out |-> Expected(c), err |-> "", calls |-> [id \in {} |-> 0]]]
 
-Init14 == cs \in IF Only = "dashsweep" THEN {c \in SweepCases \cup HistCases : c.D # {}} ELSE Cases14 \cup SweepCases \cup HistCases
+\* runs of several white-space characters next to fully dashed tags, one plain pad: with the edge lengths the white space
+\* that a dash removes lies across every offset around 64 KiB of its text
+EdgeCases == UNION {{[s |-> name, D |-> 1..NDelims(MainPieces(name)), style |-> "mix", padAt |-> {k}, ps |-> "p"]
+                       : k \in 1..NSyms(name)} : name \in {"print2", "ifelse", "forloop"}}
+Init14 == cs \in IF Only = "dashsweep" THEN {c \in SweepCases \cup HistCases : c.D # {}} ELSE Cases14 \cup SweepCases \cup HistCases \cup EdgeCases
 Spec14 == Init14 /\ [][UNCHANGED cs]_cs
 Emit14 == PrintT(ToJson(CaseOf14(cs)))
 
